@@ -436,6 +436,19 @@ int32 matrixSslDecodeTls13(ssl_t *ssl,
             p_start = p;
             rc = tls13ParseHandshakeMessage(ssl,
                     &p, end);
+            if (rc == SSL_ENCODE_RESPONSE && ssl->err == SSL_ALERT_NONE &&
+                    p != end)
+            {
+                /* A message that has to be answered (ClientHello,
+                   HelloRetryRequest, Finished, ...) ends its flight: it
+                   must be the last one in its record.  Whatever follows
+                   it here would be dropped unparsed and unhashed when
+                   the response is encoded, i.e. a foreign message would
+                   be ignored instead of refused. */
+                psTraceErrr("Handshake message behind the end of a flight\n");
+                ssl->err = SSL_ALERT_UNEXPECTED_MESSAGE;
+                rc = MATRIXSSL_ERROR;
+            }
             if (rc < 0)
             {
                 /* Skip tag, type and padding of THIS record: whether it was
